@@ -1,97 +1,181 @@
-"""Facts for C13 (concurrency limiter): the initial limits, the *shape* of `Concurrency` as
-normal forms read from the AST (order of calls in `__aenter__`, the refusal test, the growth
-loop, the retire/release decision of `__aexit__`), the guard around the request handler in both
-session classes, the `unanswered_request_count` formula, and fingerprints."""
-import ast
+"""Facts for C13 (concurrency limiter) - all BEHAVIOURAL (tools/facts/limprobe.py): obtained by
+running the current tree, never by looking at its source text or at private attributes of
+`Concurrency`.
+
+* `limiterTable`: the real `Concurrency` driven by scripted workers over a grid of operation
+  sequences (every applicable sequence of 3 operations from {enter, exit oldest/newest holder,
+  cancel oldest/newest waiter, set_target 0..3} for initial limits 1 and 2, each followed by three
+  probe entries that make the number of free permits observable, plus a few longer hand-written
+  sequences: F23 wedge, raise after reduction, cancelled waiter mid-queue).  Per operation:
+  who was let in / refused / cancelled, the holders, the queue, `max_concurrent`.
+* `guardTable`: bursts of messages through a real RPCSession and a real MessageSession (public
+  path: bytes -> framer -> message loop -> handler hook) for `initial_concurrent` 1..3: how many
+  handlers run at once and in which order they start.
+* `unansweredTable`: `unanswered_request_count()` after k requests/notifications were received
+  and j of their handlers finished.
+* constants: `initial_concurrent`, the initial outgoing limit (read from a live client session).
+Props.lean proves that the model computes exactly these tables."""
 import hashlib
 import inspect
 
 from . import common
-from . import limcommon as lc
+from . import limprobe as lp
+
+E, X, C, T = lp.OP_ENTER, lp.OP_EXIT, lp.OP_CANCEL, lp.OP_TARGET
+
+EXTRA_ROWS = [
+    # F23: holders + queue, limit to 0, holders leave, limit raised again, late entrant
+    (2, [(E, 0), (E, 1), (E, 2), (E, 3), (T, 0), (X, 0), (X, 1), (T, 2), (E, 4)]),
+    (2, [(E, 0), (E, 1), (T, 0), (X, 0), (X, 1), (T, 2), (E, 2)]),
+    (1, [(T, 0), (E, 0), (T, 1), (E, 1)]),
+    (1, [(T, -1), (E, 0), (E, 1), (T, 2), (E, 2), (E, 3)]),
+    # queue, raise, two admitted by one exit
+    (2, [(E, 0), (E, 1), (E, 2), (T, 3), (E, 3), (X, 0)]),
+    # reduction retires one permit per exit
+    (3, [(E, 0), (E, 1), (E, 2), (T, 1), (X, 0), (X, 1), (E, 3), (X, 2)]),
+    # initial limit 0: refuses (the repaired class starts with one permit in circulation)
+    (0, [(E, 0), (T, 1), (E, 1), (E, 2)]),
+    # cancelled waiter in the middle of the queue
+    (1, [(E, 0), (E, 1), (E, 2), (E, 3), (C, 2), (X, 0), (X, 1), (X, 3)]),
+    # reduce, raise before the reduction was absorbed
+    (3, [(E, 0), (E, 1), (E, 2), (E, 3), (T, 1), (X, 0), (T, 3), (X, 1), (E, 4)]),
+]
+
+
+def _mods(repo):
+    return {'session': common.fresh_import(repo, 'aiorpcx.session'),
+            'rawsocket': common.fresh_import(repo, 'aiorpcx.rawsocket'),
+            'framing': common.fresh_import(repo, 'aiorpcx.framing')}
+
+
+def guard_table(mods):
+    """(class 0 = RPCSession / 1 = MessageSession, initial_concurrent, messages, peak number of
+    handlers running at once, order in which the handlers started after everything was released
+    oldest first)"""
+    rows = []
+    Rpc, Msg = lp.gated_classes(mods)
+    for code, base in ((0, Rpc), (1, Msg)):
+        for limit in (1, 2, 3):
+            for k in (limit, limit + 2):
+                bench = lp.Bench()
+                try:
+                    cls = type('P', (base,), dict(initial_concurrent=limit))
+                    proto, _tr, s = bench.session(mods, cls, 'server')
+                    s.probe_log, s.probe_gates = [], {}
+                    data = b''.join(lp.rpc_bytes(i) if code == 0 else lp.msg_bytes(mods, i) for i in range(k))
+                    proto.data_received(data)
+                    bench.idle()
+                    peak, guard = 0, 0
+                    while guard < 50:
+                        guard += 1
+                        starts = [key for kind, key in s.probe_log if kind == 'start']
+                        ends = [key for kind, key in s.probe_log if kind == 'end']
+                        running = [x for x in starts if x not in ends]
+                        peak = max(peak, len(running))
+                        if not running:
+                            break
+                        s.probe_gates[running[0]].set_result(None)
+                        bench.idle()
+                    order = [key for kind, key in s.probe_log if kind == 'start']
+                    rows.append((code, limit, k, peak, order))
+                finally:
+                    bench.close()
+    return rows
+
+
+def unanswered_table(mods):
+    """(received requests + notifications, finished handlers, unanswered_request_count())"""
+    rows = []
+    Rpc, _Msg = lp.gated_classes(mods)
+    for k in (0, 1, 3, 5):
+        for j in range(0, k + 1, 2 if k > 3 else 1):
+            bench = lp.Bench()
+            try:
+                cls = type('P', (Rpc,), dict(initial_concurrent=2))
+                proto, _tr, s = bench.session(mods, cls, 'server')
+                s.probe_log, s.probe_gates = [], {}
+                for i in range(k):
+                    proto.data_received(lp.rpc_bytes(i, request=(i % 3 != 2)))
+                bench.idle()
+                done = 0
+                guard = 0
+                while done < j and guard < 50:
+                    guard += 1
+                    starts = [key for kind, key in s.probe_log if kind == 'start']
+                    ends = [key for kind, key in s.probe_log if kind == 'end']
+                    running = [x for x in starts if x not in ends]
+                    if not running:
+                        break
+                    s.probe_gates[running[0]].set_result(None)
+                    bench.idle()
+                    done += 1
+                rows.append((k, done, int(s.unanswered_request_count())))
+            finally:
+                bench.close()
+    return rows
+
+
+def outgoing_initial(mods):
+    bench = lp.Bench()
+    try:
+        _p, _t, s = bench.session(mods, mods['session'].RPCSession, 'client')
+        _inc, out = lp.find_limiters(s)
+        return int(out.max_concurrent) if out is not None else 0
+    finally:
+        bench.close()
 
 
 def extract(repo):
-    session = common.fresh_import(repo, 'aiorpcx.session')
-    tree = common.parse(repo, 'aiorpcx/session.py')
+    mods = _mods(repo)
+    session = mods['session']
     f = {}
     f['initial_concurrent'] = int(session.SessionBase.initial_concurrent)
-    # RPCSession.__init__: self._outgoing_concurrency = Concurrency(<const>)
-    out_init = None
-    node = common.find(tree, 'RPCSession.__init__')
-    for n in ast.walk(node) if node else []:
-        if isinstance(n, ast.Assign) and lc.strip_self(n.targets[0]) == '_outgoing_concurrency' \
-                and isinstance(n.value, ast.Call) and n.value.args \
-                and isinstance(n.value.args[0], ast.Constant):
-            out_init = n.value.args[0].value
-    f['outgoing_initial'] = out_init
-    # __aenter__ / __aexit__ / set_target / __init__ / max_concurrent: symbolic path normal forms
-    # (parameters are a0, a1, ..; locals are substituted away)
-    def paths(qual):
-        n = common.find(tree, qual)
-        return lc.sym_paths(n) if n is not None else []
-    f['aenter_paths'] = paths('Concurrency.__aenter__')
-    # _retarget_semaphore
-    node = common.find(tree, 'Concurrency._retarget_semaphore')
-    f['refuse_test'] = f['refuse_raises'] = f['grow_test'] = ''
-    f['grow_body'] = []
-    f['retarget_shape'] = []
-    for st in (node.body if node else []):
-        f['retarget_shape'].append(type(st).__name__)
-        if isinstance(st, ast.If) and not st.orelse and len(st.body) == 1 and isinstance(st.body[0], ast.Raise):
-            f['refuse_test'] = lc.cmp_nf(st.test)
-            f['refuse_raises'] = lc.stmt_nf(st.body[0])[6:]
-        elif isinstance(st, ast.While) and not st.orelse:
-            f['grow_test'] = lc.cmp_nf(st.test)
-            f['grow_body'] = lc.body_nf(st.body, ordered=False)   # release() does not suspend
-    f['aexit_paths'] = paths('Concurrency.__aexit__')
-    f['set_target_paths'] = paths('Concurrency.set_target')
-    f['init_paths'] = paths('Concurrency.__init__')
-    f['max_concurrent_paths'] = paths('Concurrency.max_concurrent')
-    # guards around the handlers
-    for key, qual, callee in (('throttled_request_guard', 'RPCSession._throttled_request', 'handle_request'),
-                              ('throttled_message_guard', 'MessageSession._throttled_message', 'handle_message')):
-        node = common.find(tree, qual)
-        g = lc.guards_of_call(node, callee) if node else []
-        f[key] = ','.join(g[0]) if len(g) == 1 else 'ambiguous:' + repr(g)
-    f['unanswered_paths'] = paths('SessionBase.unanswered_request_count')
+    f['outgoing_initial'] = outgoing_initial(mods)
+    f['limiter_rows'] = lp.limiter_grid(session, depth=3, inits=(1, 2), targets=(0, 1, 2, 3),
+                                        probes=3, extra=EXTRA_ROWS)
+    f['guard_rows'] = guard_table(mods)
+    f['unanswered_rows'] = unanswered_table(mods)
     f['refusal_is_runtime_error'] = issubclass(session.ExcessiveSessionCostError, RuntimeError)
     f['fingerprints'] = common.fingerprints(repo, {
-        'aiorpcx/session.py': ['Concurrency.__init__', 'Concurrency._retarget_semaphore',
-                               'Concurrency.max_concurrent', 'Concurrency.set_target',
-                               'Concurrency.__aenter__', 'Concurrency.__aexit__',
-                               'SessionBase.unanswered_request_count', 'SessionBase.process_messages',
-                               'RPCSession._throttled_request', 'MessageSession._throttled_message',
-                               'RPCSession._process_messages_loop']})
+        'aiorpcx/session.py': ['Concurrency', 'SessionBase.unanswered_request_count',
+                               'SessionBase.process_messages', 'RPCSession._throttled_request',
+                               'MessageSession._throttled_message',
+                               'RPCSession._process_messages_loop',
+                               'MessageSession._process_messages_loop']})
     try:
         import asyncio.locks
         src = inspect.getsource(asyncio.locks.Semaphore)
         f['fingerprints']['stdlib::asyncio.locks.Semaphore'] = hashlib.sha256(src.encode()).hexdigest()[:16]
-    except Exception:
+    except Exception:      # noqa
         f['fingerprints']['stdlib::asyncio.locks.Semaphore'] = 'unavailable'
     return f
 
 
 def render(f):
-    n = lambda v: str(int(v)) if isinstance(v, int) and not isinstance(v, bool) and v >= 0 else '0'
+    def lst(xs):
+        return '[' + ', '.join(str(x) for x in xs) + ']'
+    guard = ',\n  '.join(f'({c}, {l}, {k}, {p}, {lst(o)})' for c, l, k, p, o in f['guard_rows'])
+    unans = ', '.join(f'({k}, {j}, {n})' for k, j, n in f['unanswered_rows'])
     return (
-        '/-! GENERATED by tools/facts/c13.py from /repo on every run - do not edit. -/\n'
+        'import Aiorpcx.C13.IntRows\n'
+        '/-! GENERATED by tools/facts/c13.py by RUNNING the current tree - do not edit. -/\n'
         'namespace Aiorpcx.Facts.C13\n'
         f'/-- `SessionBase.initial_concurrent` -/\n'
-        f'def initialConcurrent : Nat := {n(f["initial_concurrent"])}\n'
-        f'/-- the constant in `self._outgoing_concurrency = Concurrency(..)` -/\n'
-        f'def outgoingInitial : Nat := {n(f["outgoing_initial"])}\n'
-        f'def aenterPaths : List String := {lc.lean_strs(f["aenter_paths"])}\n'
-        f'def refuseTest : String := {lc.lean_str(f["refuse_test"])}\n'
-        f'def refuseRaises : String := {lc.lean_str(f["refuse_raises"])}\n'
-        f'def retargetShape : List String := {lc.lean_strs(f["retarget_shape"])}\n'
-        f'def growTest : String := {lc.lean_str(f["grow_test"])}\n'
-        f'/-- sorted: `release()` does not suspend, so the order of the two statements is immaterial -/\n'
-        f'def growBody : List String := {lc.lean_strs(f["grow_body"])}\n'
-        f'def aexitPaths : List String := {lc.lean_strs(f["aexit_paths"])}\n'
-        f'def setTargetPaths : List String := {lc.lean_strs(f["set_target_paths"])}\n'
-        f'def initPaths : List String := {lc.lean_strs(f["init_paths"])}\n'
-        f'def maxConcurrentPaths : List String := {lc.lean_strs(f["max_concurrent_paths"])}\n'
-        f'def throttledRequestGuard : String := {lc.lean_str(f["throttled_request_guard"])}\n'
-        f'def throttledMessageGuard : String := {lc.lean_str(f["throttled_message_guard"])}\n'
-        f'def unansweredPaths : List String := {lc.lean_strs(f["unanswered_paths"])}\n'
+        f'def initialConcurrent : Nat := {int(f["initial_concurrent"])}\n'
+        f'/-- `max_concurrent` of the outgoing limiter of a fresh client `RPCSession` -/\n'
+        f'def outgoingInitial : Nat := {int(f["outgoing_initial"])}\n'
+        '/-- the real `Concurrency` driven by scripted workers, one row per operation sequence.  A\n'
+        '    row is a flat list of integers:\n'
+        '    initial limit, #ops, (op code, argument)* with 0 enter i / 1 exit i / 2 cancel waiter i /\n'
+        '    3 set_target n; then per operation: #events, (kind, id)* with 0 entered / 1 refused /\n'
+        '    2 cancelled / 3 not applicable; #holders, holders sorted; #queue, queue in arrival\n'
+        '    order; max_concurrent -/\n'
+        'def limiterTable : List (List Int) := '
+        + lp.lean_limiter_rows(f['limiter_rows']) + '\n'
+        '/-- bursts through real sessions: (0 RPCSession / 1 MessageSession, initial_concurrent,\n'
+        '    messages, peak handlers running at once, order in which handlers started) -/\n'
+        f'def guardTable : List (Nat × Nat × Nat × Nat × List Nat) := [\n  {guard}]\n'
+        '/-- (received, finished, unanswered_request_count()) on a live RPCSession -/\n'
+        f'def unansweredTable : List (Nat × Nat × Nat) := [{unans}]\n'
+        f'def refusalIsRuntimeError : Bool := {"true" if f["refusal_is_runtime_error"] else "false"}\n'
         'end Aiorpcx.Facts.C13\n')
